@@ -265,6 +265,34 @@ def encode_all(r, rng):
     }, q, ck
 
 
+def fcgi_fullsize(rng, keep=False):
+    """a well-formed FastCGI request whose first STDIN record is (nearly) full-size *and padded*: content 65500..65535,
+    padding 1..255 (content + padding may exceed 65535: perfectly legal, the two lengths are separate fields).
+    -> (AbsReq, query, cookie, wire bytes, (content, padding))"""
+    r = gen_absreq(rng)
+    r.method = b"POST"; r.post = None; r.ctype = rng.choice([b"text/plain", b"application/octet-stream"])
+    if r.script == b"/f":
+        r.get = [kv for kv in r.get if kv[0] not in (b"bs", b"abort")]
+    r.keep = keep
+    c = rng.choice([65535, 65535, 65535, 65534, 65500, 65281, rng.randint(65500, 65535)])
+    p = rng.choice([1, 1, 7, 8, 36, 100, 254, 255, rng.randint(1, 255)])
+    total = c + rng.choice([0, 0, 1, 100, 3000])
+    r.body = bytes(rng.randrange(256) for _ in range(64)) * (total // 64 + 1)
+    r.body = r.body[:total]
+    q = query_string(r, rng)
+    ck = cookie_header(r, rng)
+    pairs = cgi_pairs(r, q, ck, rng)
+    rid = rng.choice([1, 2, 65535])
+    out = fcgi_begin(rid, 1, 1 if keep else 0, 0)
+    out += fcgi_rec(FCGI_PARAMS, rid, fcgi_pairs(pairs), rng.choice([0, 3])) + fcgi_rec(FCGI_PARAMS, rid, b"")
+    out += fcgi_rec(FCGI_STDIN, rid, r.body[:c], p)
+    rest = r.body[c:]
+    while rest:
+        out += fcgi_rec(FCGI_STDIN, rid, rest[:65535], rng.choice([0, 5])); rest = rest[65535:]
+    out += fcgi_rec(FCGI_STDIN, rid, b"")
+    return r, q, ck, out, (c, p)
+
+
 def absreq_judge_fields(r, q, ck):
     """fields of the abstract request the Lean judge gets (all hex)"""
     hdrs = [(b"HTTP_" + nm.upper().replace(b"-", b"_"), v) for nm, v in r.headers]
